@@ -264,6 +264,31 @@ func runC02(c *Ctx) {
 	if n == 0 {
 		c.Unresolved("view-not-retained", objShort+":bufio-views", 0, "no ReadSlice/Peek site found in plumbing/object")
 	}
+	// codec-state-free: decoding and encoding depend on the input only, not on what the process handled before
+	var roots []*FuncInfo
+	for _, cs := range codecs {
+		roots = append(roots, p.Func(objShort+".(*"+cs.typ+").encode"), p.Func(objShort+".(*"+cs.typ+").Decode"))
+		roots = append(roots, funcsWithParamType(p, objShort, cs.scanner)...)
+	}
+	roots = append(roots, c.MustFunc("codec-state-free", objShort+".(*Signature).Decode"), c.MustFunc("codec-state-free", objShort+".(*Signature).Encode"))
+	StateFree(c, "codec-state-free", roots, poolAllow)
+}
+
+// poolAllow: reviewed package-level state that codecs may use. All are sync.Pool free lists whose objects are reset
+// (Reset / length set to zero) by the accessor functions before they are handed out, so no content survives a reuse.
+var poolAllow = map[string]string{
+	"utils/sync.bufioReader":                  "sync.Pool of *bufio.Reader; GetBufioReader calls Reset(reader) on every object handed out",
+	"utils/sync.byteSlice":                    "sync.Pool of scratch []byte; callers overwrite before reading (io.CopyBuffer scratch space)",
+	"utils/sync.bytesBuffer":                  "sync.Pool of *bytes.Buffer; GetBytesBuffer calls Reset() on every object handed out",
+	"utils/sync.zlibReader":                   "sync.Pool of zlib readers; GetZlibReader calls Reset(r, dict) on every object handed out",
+	"utils/sync.zlibWriter":                   "sync.Pool of zlib writers; GetZlibWriter calls Reset(w) on every object handed out",
+	"utils/sync.zlibProviderOnce":             "sync.Once guarding one-time selection of the zlib implementation",
+	"plumbing/format/pktline.pktBuffer":       "sync.Pool of packet scratch buffers; filled by io.ReadFull before use",
+	"plumbing/format/packfile.probeBufPool":   "sync.Pool of probe scratch buffers; filled by ReadAt before use",
+	"utils/binary.sniffPool":                  "sync.Pool of sniff scratch buffers; filled by Read before use",
+	"utils/trace.current":                     "trace target mask: selects logging only, never a result",
+	"utils/trace.logger":                      "trace logger: output only, never a result",
+	"plumbing/hash.algos":                     "hash constructor registry; written only by RegisterHash/reset (decided under C05: sha1-registry-default)",
 }
 
 // checkSignatureHeaderSet: keys stripped by isSignatureHeader == keys whose scanner branch writes a Signature* field.
@@ -431,6 +456,7 @@ func runC03(c *Ctx) {
 
 func runC04(c *Ctx) {
 	p := c.P
+	PackagesStateFree(c, "codec-state-free", objShort)
 	pk := p.Pkg(objShort)
 	if pk == nil {
 		c.Unresolved("tree-encode-gate", "package "+objShort, 0, "not loaded")
